@@ -123,8 +123,8 @@ package socks5
 
 // message lengths: the greeting is 2 + NMETHODS bytes, the reply 2
 //@ func (*MethodRequest).Len
-//@   props C09
+//@   props C09 C08
 //@   ensures ret == 2 + r.NMethods && 2 <= ret && ret <= 257
 //@ func (*MethodReply).Len
-//@   props C09
+//@   props C09 C08
 //@   ensures ret == 2
